@@ -839,7 +839,8 @@ pub fn run(ctx: &mut Ctx, shard: usize, nshards: usize) {
     // (a) exhaustive header space (thinned over non-version-2 first bytes in quick)
     if ctx.scale >= 0.5 {
         let stride = if thorough { 1 } else { 4 };
-        gb::header_space(shard, nshards, stride, &mut |b| check(ctx, b));
+        let n = gb::header_space(shard, nshards, stride, &mut |b| check(ctx, b));
+        ctx.class_add(if stride == 1 { "exhaustive:header-space(all first bytes x 11 types x length field 0..=12 x actual length 0..=52 x 4 fills)" } else { "exhaustive:header-space(version-2 first bytes in full, others strided by 4)" }, n);
     } else {
         // tiny tiers (Miri): a thin deterministic slice of the header space
         let mut k = 0u64;
@@ -854,7 +855,8 @@ pub fn run(ctx: &mut Ctx, shard: usize, nshards: usize) {
     // (e) small-alphabet SDES bodies
     let words = if ctx.scale < 0.5 { 1 } else if thorough { 3 } else { 2 };
     if ctx.scale >= 0.5 {
-        gb::sdes_small_alphabet(words, shard, nshards, &mut |b| check(ctx, b));
+        let n = gb::sdes_small_alphabet(words, shard, nshards, &mut |b| check(ctx, b));
+        ctx.class_add(&format!("exhaustive:sdes-bodies({words} words over {{0,1,2,8}} x 3 ssrc prefixes x padding 0/4/8 x SC)"), n);
     }
     // FCI lengths 0..=40 behind each feedback header, three fills
     if shard == 0 {
